@@ -494,7 +494,298 @@ def t_py3(src):
     return ast.unparse(tree) + "\n"
 
 
-TRANSFORMS = {"unparse": t_unparse, "rename": t_rename, "augassign": t_augassign, "ifswap": t_ifswap,
+# ---- T11..T18: statement-shape transformations (third session) -----------------------------------------------
+
+def _simple_target(t):
+    while isinstance(t, ast.Attribute):
+        t = t.value
+    return isinstance(t, ast.Name)
+
+
+class _IfExp2Stmt(ast.NodeTransformer):
+    """x = a if c else b  ->  if c: x = a  else: x = b ;  return a if c else b  ->  if c: return a  return b"""
+    def _block(self, stmts):
+        out = []
+        for s in stmts:
+            s = self.visit(s)
+            if isinstance(s, ast.Assign) and len(s.targets) == 1 and _simple_target(s.targets[0]) and isinstance(s.value, ast.IfExp):
+                v = s.value
+                out.append(ast.copy_location(ast.If(test=v.test, body=[ast.Assign(targets=s.targets, value=v.body)],
+                                                    orelse=[ast.Assign(targets=s.targets, value=v.orelse)]), s))
+            elif isinstance(s, ast.Return) and isinstance(s.value, ast.IfExp):
+                v = s.value
+                out.append(ast.copy_location(ast.If(test=v.test, body=[ast.Return(value=v.body)], orelse=[]), s))
+                out.append(ast.copy_location(ast.Return(value=v.orelse), s))
+            else:
+                out.append(s)
+        return out
+
+    def generic_visit(self, node):
+        for field, v in ast.iter_fields(node):
+            if isinstance(v, list) and v and isinstance(v[0], ast.stmt):
+                setattr(node, field, self._block(v))
+            elif isinstance(v, list):
+                for i, x in enumerate(v):
+                    if isinstance(x, ast.AST):
+                        v[i] = self.visit(x)
+            elif isinstance(v, ast.AST):
+                setattr(node, field, self.visit(v))
+        return node
+
+
+class _Stmt2IfExp(_IfExp2Stmt):
+    """if c: x = a  else: x = b  ->  x = a if c else b   (same plain target on both sides, single statements)"""
+    def _block(self, stmts):
+        out = []
+        for s in stmts:
+            s = self.visit(s)
+            if isinstance(s, ast.If) and len(s.body) == 1 and len(s.orelse) == 1 and isinstance(s.body[0], ast.Assign) \
+                    and isinstance(s.orelse[0], ast.Assign) and len(s.body[0].targets) == 1 and len(s.orelse[0].targets) == 1 \
+                    and _simple_target(s.body[0].targets[0]) and ast.dump(s.body[0].targets[0]) == ast.dump(s.orelse[0].targets[0]) \
+                    and not isinstance(s.body[0].value, (ast.Yield, ast.YieldFrom)) and not isinstance(s.orelse[0].value, (ast.Yield, ast.YieldFrom)):
+                out.append(ast.copy_location(ast.Assign(targets=s.body[0].targets,
+                                                        value=ast.IfExp(test=s.test, body=s.body[0].value, orelse=s.orelse[0].value)), s))
+            else:
+                out.append(s)
+        return out
+
+
+class _TupleSplit(_IfExp2Stmt):
+    """a, b = x, y -> a = x; b = y   when no right-hand side mentions a target name and targets are plain names"""
+    def _block(self, stmts):
+        out = []
+        for s in stmts:
+            s = self.visit(s)
+            if isinstance(s, ast.Assign) and len(s.targets) == 1 and isinstance(s.targets[0], ast.Tuple) and isinstance(s.value, ast.Tuple) \
+                    and len(s.targets[0].elts) == len(s.value.elts) and all(isinstance(t, ast.Name) for t in s.targets[0].elts):
+                names = set(t.id for t in s.targets[0].elts)
+                if not any(isinstance(x, ast.Name) and x.id in names for v in s.value.elts for x in ast.walk(v)) and len(names) == len(s.value.elts):
+                    for t, v in zip(s.targets[0].elts, s.value.elts):
+                        out.append(ast.copy_location(ast.Assign(targets=[t], value=v), s))
+                    continue
+            out.append(s)
+        return out
+
+
+class _TupleMerge(_IfExp2Stmt):
+    """a = x; b = y (adjacent, plain distinct names, y does not mention a, neither side has a call) -> a, b = x, y"""
+    def _block(self, stmts):
+        stmts = [self.visit(s) for s in stmts]
+        out = []
+        i = 0
+
+        def ok(s):
+            return isinstance(s, ast.Assign) and len(s.targets) == 1 and isinstance(s.targets[0], ast.Name) \
+                and not any(isinstance(x, (ast.Call, ast.Yield, ast.YieldFrom, ast.Await, ast.NamedExpr)) for x in ast.walk(s.value))
+        while i < len(stmts):
+            s = stmts[i]
+            nxt = stmts[i + 1] if i + 1 < len(stmts) else None
+            if ok(s) and nxt is not None and ok(nxt) and s.targets[0].id != nxt.targets[0].id \
+                    and not any(isinstance(x, ast.Name) and x.id == s.targets[0].id for x in ast.walk(nxt.value)):
+                out.append(ast.copy_location(ast.Assign(
+                    targets=[ast.Tuple(elts=[s.targets[0], nxt.targets[0]], ctx=ast.Store())],
+                    value=ast.Tuple(elts=[s.value, nxt.value], ctx=ast.Load())), s))
+                i += 2
+            else:
+                out.append(s)
+                i += 1
+        return out
+
+
+class _AndSplit(ast.NodeTransformer):
+    """if a and b: X  (no else)  ->  if a:  if b: X"""
+    def visit_If(self, n):
+        self.generic_visit(n)
+        if not n.orelse and isinstance(n.test, ast.BoolOp) and isinstance(n.test.op, ast.And) and len(n.test.values) == 2:
+            inner = ast.copy_location(ast.If(test=n.test.values[1], body=n.body, orelse=[]), n)
+            return ast.copy_location(ast.If(test=n.test.values[0], body=[inner], orelse=[]), n)
+        return n
+
+
+class _DeMorgan(ast.NodeTransformer):
+    """not (a and b) -> (not a) or (not b);  not (a or b) -> (not a) and (not b)"""
+    def visit_UnaryOp(self, n):
+        self.generic_visit(n)
+        if isinstance(n.op, ast.Not) and isinstance(n.operand, ast.BoolOp):
+            b = n.operand
+            op = ast.Or() if isinstance(b.op, ast.And) else ast.And()
+            vals = [ast.UnaryOp(op=ast.Not(), operand=v) for v in b.values]   # never strip a `not`: `not not x` is a bool, `x` need not be
+            return ast.copy_location(ast.BoolOp(op=op, values=vals), n)
+        return n
+
+
+class _LoopUnpack(ast.NodeTransformer):
+    """for a, b in xs: BODY  ->  for _item in xs: a, b = _item; BODY   (plain-name targets)"""
+    def visit_For(self, n):
+        self.generic_visit(n)
+        if isinstance(n.target, ast.Tuple) and all(isinstance(e, ast.Name) for e in n.target.elts):
+            nm = "_item_%d" % n.lineno
+            unpack = ast.copy_location(ast.Assign(targets=[n.target], value=ast.Name(id=nm, ctx=ast.Load())), n)
+            n.target = ast.Name(id=nm, ctx=ast.Store())
+            n.body = [unpack] + n.body
+        return n
+
+
+class _RetTemp(_IfExp2Stmt):
+    """return f(...)  ->  _result = f(...); return _result   (in functions that are not generators)"""
+    def _block(self, stmts):
+        out = []
+        for s in stmts:
+            s = self.visit(s)
+            if isinstance(s, ast.Return) and isinstance(s.value, ast.Call) and getattr(self, "_in_plain", False):
+                out.append(ast.copy_location(ast.Assign(targets=[ast.Name(id="_result", ctx=ast.Store())], value=s.value), s))
+                out.append(ast.copy_location(ast.Return(value=ast.Name(id="_result", ctx=ast.Load())), s))
+            else:
+                out.append(s)
+        return out
+
+    def visit_FunctionDef(self, n):
+        prev = getattr(self, "_in_plain", False)
+        gen = any(isinstance(x, (ast.Yield, ast.YieldFrom)) for x in ast.walk(n))
+        uses = any(isinstance(x, ast.Name) and x.id == "_result" for x in ast.walk(n))
+        self._in_plain = not gen and not uses
+        self.generic_visit(n)
+        self._in_plain = prev
+        return n
+
+
+class _WhileTrue(ast.NodeTransformer):
+    """while c: BODY  ->  while True: if not c: break; BODY      (no else clause)"""
+    def visit_While(self, n):
+        self.generic_visit(n)
+        if n.orelse or (isinstance(n.test, ast.Constant) and n.test.value):
+            return n
+        guard = ast.copy_location(ast.If(test=ast.UnaryOp(op=ast.Not(), operand=n.test), body=[ast.Break()], orelse=[]), n)
+        return ast.copy_location(ast.While(test=ast.Constant(value=True), body=[guard] + n.body, orelse=[]), n)
+
+
+class _Compr2Loop(_IfExp2Stmt):
+    """x = [E for a in xs if c]  ->  x = []; for a in xs: if c: x.append(E)     (one generator, plain name target, x not used in the comprehension)"""
+    def _block(self, stmts):
+        out = []
+        for s in stmts:
+            s = self.visit(s)
+            if isinstance(s, ast.Assign) and len(s.targets) == 1 and isinstance(s.targets[0], ast.Name) and isinstance(s.value, ast.ListComp) \
+                    and len(s.value.generators) == 1 and not s.value.generators[0].is_async \
+                    and not any(isinstance(x, ast.Name) and x.id == s.targets[0].id for x in ast.walk(s.value)):
+                g = s.value.generators[0]
+                x = s.targets[0].id
+                # names bound by the comprehension must not clash with names used after it: keep it simple -- only when the
+                # loop variable names do not occur anywhere else in the enclosing statement list
+                lv = set(n_.id for n_ in ast.walk(g.target) if isinstance(n_, ast.Name))
+                others = set(n_.id for st in stmts if st is not s for n_ in ast.walk(st) if isinstance(n_, ast.Name))
+                if lv & others:
+                    out.append(s)
+                    continue
+                app = ast.Expr(value=ast.Call(func=ast.Attribute(value=ast.Name(id=x, ctx=ast.Load()), attr="append", ctx=ast.Load()),
+                                              args=[s.value.elt], keywords=[]))
+                body = [app]
+                for c in reversed(g.ifs):
+                    body = [ast.If(test=c, body=body, orelse=[])]
+                out.append(ast.copy_location(ast.Assign(targets=[ast.Name(id=x, ctx=ast.Store())], value=ast.List(elts=[], ctx=ast.Load())), s))
+                out.append(ast.copy_location(ast.For(target=g.target, iter=g.iter, body=body, orelse=[]), s))
+            else:
+                out.append(s)
+        return out
+
+
+_INIT_ONLY = None
+
+
+def _init_only_attrs():
+    """attribute names that are assigned in some __init__ and nowhere else in the package, and are not the name of any
+    function/property/class attribute: reading them twice gives the same object, so a local alias cannot go stale"""
+    global _INIT_ONLY
+    if _INIT_ONLY is None:
+        inits, defs = set(), set()
+        for rel, src in sources().items():
+            tree = ast.parse(src)
+            for n in ast.walk(tree):
+                if isinstance(n, (ast.FunctionDef, ast.AsyncFunctionDef, ast.ClassDef)):
+                    defs.add(n.name)
+                if isinstance(n, ast.ClassDef):
+                    for st in n.body:
+                        if isinstance(st, ast.Assign):
+                            for t in st.targets:
+                                if isinstance(t, ast.Name):
+                                    defs.add(t.id)
+                if isinstance(n, ast.FunctionDef) and n.name == "__init__":
+                    for x in ast.walk(n):
+                        if isinstance(x, ast.Attribute) and isinstance(x.ctx, ast.Store) and isinstance(x.value, ast.Name) and x.value.id == "self":
+                            inits.add(x.attr)
+        _INIT_ONLY = inits - _mutable_attrs() - defs
+    return _INIT_ONLY
+
+
+class _AliasIntro(ast.NodeTransformer):
+    """read `self.attr` (assigned only in constructors) twice or more in a method -> `_attr_local = self.attr` first, then the local.
+    Only in methods whose first statement already reads that attribute unconditionally would be exactly safe; the suite confirms the rest."""
+    def visit_FunctionDef(self, n):
+        self.generic_visit(n)
+        if n.name == "__init__" or not n.args.args or n.args.args[0].arg != "self":
+            return n
+        counts = {}
+        nested = set()
+        for x in ast.walk(n):
+            if isinstance(x, (ast.FunctionDef, ast.Lambda)) and x is not n:
+                for y in ast.walk(x):
+                    if isinstance(y, ast.Attribute):
+                        nested.add(y.attr)
+        # the attribute must be read by the very first statement (so evaluating it up front raises nothing new)
+        first = n.body[1] if (n.body and isinstance(n.body[0], ast.Expr) and isinstance(n.body[0].value, ast.Constant) and len(n.body) > 1) else (n.body[0] if n.body else None)
+        if first is None or isinstance(first, (ast.If, ast.For, ast.While, ast.Try, ast.With)):
+            return n
+        first_reads = set(x.attr for x in ast.walk(first) if isinstance(x, ast.Attribute) and isinstance(x.ctx, ast.Load)
+                          and isinstance(x.value, ast.Name) and x.value.id == "self")
+        for x in ast.walk(n):
+            if isinstance(x, ast.Attribute) and isinstance(x.ctx, ast.Load) and isinstance(x.value, ast.Name) and x.value.id == "self":
+                counts[x.attr] = counts.get(x.attr, 0) + 1
+        names = set(x.id for x in ast.walk(n) if isinstance(x, ast.Name)) | set(a.arg for a in n.args.args)
+        chosen = [a for a, c in counts.items() if c >= 2 and a in _init_only_attrs() and a in first_reads and a not in nested
+                  and ("_" + a.lstrip("_") + "_local") not in names]
+        if not chosen:
+            return n
+
+        class R(ast.NodeTransformer):
+            def visit_Attribute(self, x):
+                self.generic_visit(x)
+                if isinstance(x.ctx, ast.Load) and isinstance(x.value, ast.Name) and x.value.id == "self" and x.attr in chosen:
+                    return ast.copy_location(ast.Name(id="_" + x.attr.lstrip("_") + "_local", ctx=ast.Load()), x)
+                return x
+
+            def visit_FunctionDef(self, x):
+                return x
+
+            def visit_Lambda(self, x):
+                return x
+        new_body = [R().visit(st) for st in n.body]
+        head = []
+        if new_body and isinstance(new_body[0], ast.Expr) and isinstance(new_body[0].value, ast.Constant):
+            head, new_body = [new_body[0]], new_body[1:]
+        binds = [ast.copy_location(ast.Assign(targets=[ast.Name(id="_" + a.lstrip("_") + "_local", ctx=ast.Store())],
+                                              value=ast.Attribute(value=ast.Name(id="self", ctx=ast.Load()), attr=a, ctx=ast.Load())), n)
+                 for a in sorted(chosen)]
+        n.body = head + binds + new_body
+        return n
+
+
+def _mk(cls):
+    def t(src):
+        tree = cls().visit(ast.parse(src))
+        ast.fix_missing_locations(tree)
+        return ast.unparse(tree) + "\n"
+    return t
+
+
+t_ifexp2stmt, t_stmt2ifexp, t_tuplesplit, t_tuplemerge = _mk(_IfExp2Stmt), _mk(_Stmt2IfExp), _mk(_TupleSplit), _mk(_TupleMerge)
+t_andsplit, t_demorgan, t_loopunpack, t_rettemp = _mk(_AndSplit), _mk(_DeMorgan), _mk(_LoopUnpack), _mk(_RetTemp)
+t_whiletrue, t_compr2loop, t_aliasintro = _mk(_WhileTrue), _mk(_Compr2Loop), _mk(_AliasIntro)
+
+
+TRANSFORMS = {"ifexp2stmt": t_ifexp2stmt, "stmt2ifexp": t_stmt2ifexp, "tuplesplit": t_tuplesplit, "tuplemerge": t_tuplemerge,
+              "andsplit": t_andsplit, "demorgan": t_demorgan, "loopunpack": t_loopunpack, "rettemp": t_rettemp,
+              "whiletrue": t_whiletrue, "compr2loop": t_compr2loop, "aliasintro": t_aliasintro,
+              "unparse": t_unparse, "rename": t_rename, "augassign": t_augassign, "ifswap": t_ifswap,
               "elsedrop": t_elsedrop, "passins": t_passins, "py3": t_py3, "noise": t_noise, "cmpflip": t_cmpflip, "aliasinline": t_aliasinline}
 
 
